@@ -1,6 +1,8 @@
 package main
 
 import (
+	"runtime/debug"
+	"runtime"
 	"golang.org/x/tools/go/ssa"
 	"flag"
 	"fmt"
@@ -12,6 +14,7 @@ import (
 )
 
 func main() {
+	debug.SetMemoryLimit(20 << 30)
 	if len(os.Args) < 2 {
 		fmt.Fprintln(os.Stderr, "usage: symgo dev|run|replay|selftest ...")
 		os.Exit(2)
@@ -79,6 +82,7 @@ func devMain(args []string) {
 	}
 	r := l.runInstance(in, strings.Split(*solver, ","), *qt)
 	printResult(r)
+	fmt.Println("  host goroutines at end:", runtime.NumGoroutine())
 	if profSteps != nil {
 		type kv struct {
 			f string
